@@ -121,8 +121,9 @@ def register(add, NOTE):
         "relative error <= 5e-7; 0.1 <= |f| < 1 relative <= 5e-6; fixed-point fields below 1 absolute < 1e-6 for every t <= 0 the float logarithm "
         "can give; exponent fields below 0.1 relative <= 5e-7; zero prints as zero; at exact powers of ten (float logarithm one too small) the text "
         "is exact. Structure theorems over the topology model: the geometry blocks list every pulse once in order; each pulse of an object is a "
-        "numbered current row of its block or one of its junction pulses, never both. PARTIAL: text -> value is the obvious reading (not a Coq "
-        "parser); column agreement and per-table formats are checked by re-reading every number of real reports. Known finding: V/m table layout.",
+        "numbered current row of its block or one of its junction pulses, never both. A character-level reader is proved to accept every "
+        "rendered text and to return exactly its value (and is run inside Coq on the real texts). PARTIAL: column agreement and per-table "
+        "formats are checked by re-reading every number of real reports. Known finding: V/m table layout.",
         "Rocq proof (decimal rounding / truncation arithmetic over N and R) + character-wise vm_compute correspondence + report re-reading oracle",
         "DESIGN.md §6 C19", note=NOTE + PART)
     add("C15",
